@@ -54,11 +54,15 @@ pub struct Cfg {
     /// the call under test is made twice on the same thread; the *second* result is the outcome
     #[serde(default)]
     pub repeat: bool,
+    /// number of external caller threads making the same call concurrently into the one pool
+    /// (0 and 1 both mean a single caller); every caller's result is compared
+    #[serde(default)]
+    pub callers: usize,
 }
 
 impl Cfg {
     pub fn reference() -> Cfg {
-        Cfg { workers: 1, strategy: "sequential".into(), sched_seed: 0, hash_seed: 0, addr_seed: None, prefix: vec![], from_worker: false, decisions: None, repeat: false }
+        Cfg { workers: 1, strategy: "sequential".into(), sched_seed: 0, hash_seed: 0, addr_seed: None, prefix: vec![], from_worker: false, decisions: None, repeat: false, callers: 1 }
     }
 }
 
@@ -146,27 +150,46 @@ pub fn run_one(sc: &Scenario, op: &'static OpDef, input: &Input, prefix_inputs: 
     };
     let from_worker = cfg.from_worker;
     let repeat = cfg.repeat;
-    let (res, report) = sim::run(scfg, move || {
-        let body = move || {
-            for (pop, pin) in prefix_inputs {
-                // the prefix only churns thread-local key counters, lazies and the heap; a panic
-                // in it is not the call under test
-                let _ = std::panic::catch_unwind(std::panic::AssertUnwindSafe(|| exec(pop, pin)));
-            }
-            // a panic of the prefix must not be taken for the panic location of the call under test
-            *PANIC_AT.lock().unwrap_or_else(|p| p.into_inner()) = None;
-            if repeat {
-                let _ = std::panic::catch_unwind(std::panic::AssertUnwindSafe(|| exec(op, input)));
+    let callers = cfg.callers.max(1);
+    let make_body = || {
+        move || {
+            let body = move || {
+                for (pop, pin) in prefix_inputs {
+                    // the prefix only churns thread-local key counters, lazies and the heap; a panic
+                    // in it is not the call under test
+                    let _ = std::panic::catch_unwind(std::panic::AssertUnwindSafe(|| exec(pop, pin)));
+                }
+                // a panic of the prefix must not be taken for the panic location of the call under test
                 *PANIC_AT.lock().unwrap_or_else(|p| p.into_inner()) = None;
+                if repeat {
+                    let _ = std::panic::catch_unwind(std::panic::AssertUnwindSafe(|| exec(op, input)));
+                    *PANIC_AT.lock().unwrap_or_else(|p| p.into_inner()) = None;
+                }
+                exec(op, input)
+            };
+            if from_worker {
+                rayon::ThreadPoolBuilder::new().build().unwrap().install(body)
+            } else {
+                body()
             }
-            exec(op, input)
-        };
-        if from_worker {
-            rayon::ThreadPoolBuilder::new().build().unwrap().install(body)
-        } else {
-            body()
         }
-    });
+    };
+    let (mut all, report) = sim::run_multi(scfg, (0..callers).map(|_| make_body()).collect());
+    // all callers must agree; report the first one that differs from caller 0 (if any) so that a
+    // disagreement between callers can never be masked
+    let first = all.remove(0);
+    let mut res = first;
+    if let Ok(b0) = &res {
+        for other in all {
+            match other {
+                Ok(b) if &b == b0 => {}
+                other => {
+                    res = other;
+                    break;
+                }
+            }
+        }
+    }
     let outcome = match res {
         Ok(bytes) => {
             // copy on the harness thread; the original (possibly arena memory) dies here
@@ -258,6 +281,7 @@ pub fn gen_cfg(seed: u64, v: u64) -> Cfg {
         from_worker: rng.chance(1, 5),
         decisions: None,
         repeat: rng.chance(1, 6),
+        callers: if rng.chance(1, 6) { 2 + rng.below(2) } else { 1 },
     }
 }
 
@@ -374,6 +398,7 @@ fn minimise(sc: &Scenario, cfg: &Cfg) -> Option<Minimised> {
     try_reset("prefix", &|c| c.prefix.clear(), &mut cfg);
     try_reset("from_worker", &|c| c.from_worker = false, &mut cfg);
     try_reset("repeat", &|c| c.repeat = false, &mut cfg);
+    try_reset("callers", &|c| c.callers = 1, &mut cfg);
     try_reset("addr", &|c| c.addr_seed = None, &mut cfg);
     try_reset("hash", &|c| c.hash_seed = 0, &mut cfg);
     try_reset(
@@ -399,6 +424,9 @@ fn minimise(sc: &Scenario, cfg: &Cfg) -> Option<Minimised> {
     }
     if cfg.repeat {
         needed.push("repeat");
+    }
+    if cfg.callers > 1 {
+        needed.push("callers");
     }
     if cfg.addr_seed.is_some() {
         needed.push("addr");
@@ -568,6 +596,9 @@ fn account(t: &mut Tot, sc: &Scenario, cfg: &Cfg, info: &RunInfo) {
     if cfg.repeat {
         t.add("runs_with_repeat", 1);
     }
+    if cfg.callers > 1 {
+        t.add("runs_with_concurrent_callers", 1);
+    }
     if cfg.prefix.iter().any(|p| p.starts_with("@self")) {
         t.add("runs_with_self_prefix", 1);
     }
@@ -715,6 +746,7 @@ pub fn run(a: &Args) -> i32 {
     write_hashes(a, &hashes);
     loghashes.sort_unstable();
     loghashes.dedup();
+    write_hashes_as(a, "C20log", &loghashes);
     let mut pj = serde_json::Map::new();
     for (k, v) in &tot.m {
         pj.insert(k.clone(), json!(v));
